@@ -19,7 +19,7 @@
     `Scanlines::new` (see `Props/C05/GeneratedCircle.lean`).
 -/
 import EG.Props.C06.GeneratedStyled
-namespace EG.C06.Src
+namespace EG.C06.CurveSrc
 open EG EG.RectSrcPrelude EG.CurveSrcPrelude EG.Generated EG.C16.Src EG.C05.Src EG.C06
 
 /-! ### `PrimitiveStyle` -/
@@ -421,4 +421,4 @@ example : IsU32 (⟨⟨-3, 2⟩, ⟨7, 3⟩⟩ : CurveSrc.Ellipse).size ∧
     ((ellipseOf ⟨⟨-3, 2⟩, ⟨7, 3⟩⟩).strokeArea (primStyleOf ⟨some 1, some 2, 9, .Center, .Solid⟩)).InRange ∧
     EllipseRowsBelow 20 ((ellipseOf ⟨⟨-3, 2⟩, ⟨7, 3⟩⟩).strokeArea (primStyleOf ⟨some 1, some 2, 9, .Center, .Solid⟩)) := by decide
 
-end EG.C06.Src
+end EG.C06.CurveSrc
